@@ -69,62 +69,67 @@ func (t *BTree[K, V]) Height() int {
 // Get searches for a key and in case it's found it returns the key's value
 // together with a boolean flag signaling the key existence in the tree data structure.
 func (t *BTree[K, V]) Get(key K) (V, bool) {
-	return t.root.search(t, key, t.height)
-}
-
-// search is a private method which is invoked by the Get method.
-func (n *node[K, V]) search(t *BTree[K, V], key K, height int) (V, bool) {
-	// external node
-	if height == 0 {
-		for i := 0; i < n.m; i++ {
-			if gogu.Equal(key, n.children[i].key) && !n.children[i].isRemoved {
-				return n.children[i].value, true
-			}
-		}
-	} else {
-		// internal node
-		for i := 0; i < n.m; i++ {
-			if i+1 == n.m || gogu.Less(key, n.children[i+1].key) {
-				return n.children[i].next.search(t, key, height-1)
-			}
-		}
+	if e := t.root.find(key, t.height); e != nil {
+		return e.value, true
 	}
 
 	var v V
 	return v, false
 }
 
+// find is a private method which descends to the external node responsible for the key
+// and returns the entry holding it, or nil in case the tree does not contain the key.
+// It is shared by the Get, Put and Remove methods.
+func (n *node[K, V]) find(key K, height int) *entry[K, V] {
+	// external node
+	if height == 0 {
+		for i := 0; i < n.m; i++ {
+			if gogu.Equal(key, n.children[i].key) && !n.children[i].isRemoved {
+				return &n.children[i]
+			}
+		}
+	} else {
+		// internal node
+		for i := 0; i < n.m; i++ {
+			if i+1 == n.m || gogu.Less(key, n.children[i+1].key) {
+				return n.children[i].next.find(key, height-1)
+			}
+		}
+	}
+
+	return nil
+}
+
 // Put inserts a new value into the B-tree.
 func (t *BTree[K, V]) Put(key K, val V) {
-	if _, ok := t.Get(key); !ok {
-		t.n++
+	// If the value already exists in the B-tree this will be overwritten.
+	if e := t.root.find(key, t.height); e != nil {
+		e.value = val
+		return
 	}
-	u := t.root.insert(t, key, val, t.height, false)
+	t.n++
+
+	u := t.root.insert(t, key, val, t.height)
 	if u == nil {
 		return
 	}
-	{
-		var t *BTree[K, V] = t
-		_ = t
-		var u *node[K, V] = u
-		_ = u
-		n := newNode[K, V](2)
-		n.children[0] = entry[K, V]{
-			key:  t.root.children[0].key,
-			next: t.root,
-		}
-		n.children[1] = entry[K, V]{
-			key:  u.children[0].key,
-			next: u,
-		}
-		t.root = n
-		t.height++
+	// split the root
+	n := newNode[K, V](2)
+	n.children[0] = entry[K, V]{
+		key:  t.root.children[0].key,
+		next: t.root,
+	}
+	n.children[1] = entry[K, V]{
+		key:  u.children[0].key,
+		next: u,
 	}
 
+	t.root = n
+	t.height++
 }
 
-// insert is a private method which is invoked by the Put method.
-func (n *node[K, V]) insert(t *BTree[K, V], key K, val V, height int, isRemoved bool) *node[K, V] {
+// insert is a private method which is invoked by the Put method for the keys not yet present in the tree.
+func (n *node[K, V]) insert(t *BTree[K, V], key K, val V, height int) *node[K, V] {
 	entry := entry[K, V]{
 		key:   key,
 		value: val,
@@ -135,13 +140,7 @@ func (n *node[K, V]) insert(t *BTree[K, V], key K, val V, height int, isRemoved 
 	// external node
 	if height == 0 {
 		for j = 0; j < n.m; j++ {
-			// If the value already exists in the B-tree this will be overwritten.
-			if gogu.Equal(key, n.children[j].key) {
-				n.children[j].value = val
-				// This signals that we are invoking the Put or Remove method.
-				n.children[j].isRemoved = isRemoved
-				return nil
-			} else if gogu.Less(key, n.children[j].key) {
+			if gogu.Less(key, n.children[j].key) {
 				break
 			}
 		}
@@ -149,7 +148,7 @@ func (n *node[K, V]) insert(t *BTree[K, V], key K, val V, height int, isRemoved 
 		// internal node
 		for j = 0; j < n.m; j++ {
 			if j+1 == n.m || gogu.Less(key, n.children[j+1].key) {
-				node := n.children[j].next.insert(t, key, val, height-1, isRemoved)
+				node := n.children[j].next.insert(t, key, val, height-1)
 				if node == nil {
 					return nil
 				}
@@ -185,12 +184,13 @@ func (t *BTree[K, V]) split(n *node[K, V]) *node[K, V] {
 
 // Remove deletes a node from the B-tree.
 func (t *BTree[K, V]) Remove(key K) {
-	val, ok := t.Get(key)
-	if !ok {
+	e := t.root.find(key, t.height)
+	if e == nil {
 		return
 	}
+	// The entry is only flagged as removed, this way the tree does not have to be rebalanced.
+	e.isRemoved = true
 	t.n--
-	t.root.insert(t, key, val, t.height, true)
 }
 
 // Traverse iterates over the tree nodes and invokes the callback function provided as argument.
@@ -214,4 +214,26 @@ func (t *BTree[K, V]) traverse(n *node[K, V], depth int, fn func(K, V)) {
 			t.traverse(n.children[i].next, depth-1, fn)
 		}
 	}
+}
+
+// search is a private method which is invoked by the Get method.
+func (n *node[K, V]) search(t *BTree[K, V], key K, height int) (V, bool) {
+	// external node
+	if height == 0 {
+		for i := 0; i < n.m; i++ {
+			if gogu.Equal(key, n.children[i].key) && !n.children[i].isRemoved {
+				return n.children[i].value, true
+			}
+		}
+	} else {
+		// internal node
+		for i := 0; i < n.m; i++ {
+			if i+1 == n.m || gogu.Less(key, n.children[i+1].key) {
+				return n.children[i].next.search(t, key, height-1)
+			}
+		}
+	}
+
+	var v V
+	return v, false
 }
